@@ -161,6 +161,9 @@ fn c07_replace_vertices_step() {
     kani::assume(k < 6);
     assert_eq!(mdl.lods[0].parts[0].indices[k], idx[k]);
     check_invariant(&mdl, 1, &[&[0]]);
+    // the (empty) next LOD starts right behind this LOD's index section
+    let end0 = mdl.model_data.lods[0].index_data_offset as u64 + mdl.model_data.lods[0].index_buffer_size as u64;
+    assert_eq!(mdl.model_data.lods[1].vertex_data_offset as u64, end0);
     kani::cover!(true);
     core::mem::forget(mdl);
 }
